@@ -215,9 +215,12 @@ def _try_from(g: DeriveGroup, fns: Optional[Dict[str, dict]] = None) -> Optional
 
 
 def classify_parse_leaf(leaf) -> Tuple[str, Any]:
-    """('variant', Ctor) | ('ft', FallThrough) | ('diverge', reason)"""
+    """('variant', Ctor) | ('ft', FallThrough) | ('diverge', reason) | ('effect', text)"""
     if leaf.diverge:
         return ("diverge", leaf.diverge)
+    un = leaf.unused_effects()
+    if un:
+        return ("effect", "evaluates %s and discards it, then returns %s" % (H.brief(un[0], 60), H.brief(leaf.value, 60)))
     v = leaf.value
     ft = _fall_through(v)
     if ft.kind == "default" and not ft.arg_ok and not any(n.get("k") == "local" and n.get("param") == 0 for n in H.walk(v)):
@@ -611,9 +614,22 @@ class VMatch:
     stmts: List[dict]
 
 
-def variant_match(fn: dict, self_param: int = 0, allow_stmts: bool = False, fns: Optional[Dict[str, dict]] = None) -> VMatch:
+def variant_match(fn: dict, self_param: int = 0, allow_stmts: bool = False, fns: Optional[Dict[str, dict]] = None, accept=None) -> VMatch:
+    """accept(body) -> bool: what the caller can interpret as an arm result; when the emitted arms are matched but some
+    result is not of that form (a call to a sibling method, a block with an early return ..) the normaliser is tried."""
     try:
-        return variant_match_shape(fn, self_param, allow_stmts)
+        vm = variant_match_shape(fn, self_param, allow_stmts)
+        if accept is not None and not allow_stmts:
+            bodies = [b for _vp, b, _n in vm.arms] + ([vm.wild] if vm.wild is not None else [])
+            if not all(accept(b) for b in bodies):
+                try:
+                    vt = variant_match_tree(fn, self_param, fns)
+                    tb = [b for _vp, b, _n in vt.arms] + ([vt.wild] if vt.wild is not None else [])
+                    if all(accept(b) for b in tb):
+                        return vt
+                except Unrecognised:
+                    pass
+        return vm
     except Unrecognised as e1:
         if allow_stmts:
             raise
